@@ -8,6 +8,14 @@ def sh(cmd, cwd=None, timeout=3600):
     p = subprocess.run(cmd, shell=True, cwd=cwd, capture_output=True, text=True, timeout=timeout, env=dict(os.environ, CARGO_NET_OFFLINE='true'))
     return p.returncode, p.stdout + p.stderr
 
+EVSAVE = '/tmp/seedtest-evidence-save'
+def save_evidence():
+    shutil.rmtree(EVSAVE, ignore_errors=True); shutil.copytree('/verif/evidence', EVSAVE)
+def restore_evidence():
+    # evidence written while /repo was patched must not replace the evidence of the unchanged tree
+    if os.path.isdir(EVSAVE):
+        shutil.rmtree('/verif/evidence', ignore_errors=True); shutil.copytree(EVSAVE, '/verif/evidence'); shutil.rmtree(EVSAVE, ignore_errors=True)
+
 def recheck():
     sid = sys.argv[2]; checks = sys.argv[3:] or [f'C{i:02d}' for i in range(1, 20)]
     out = os.path.join('/verif/seeded', sid); patch = os.path.join(out, 'patch.diff')
@@ -15,6 +23,7 @@ def recheck():
     meta.setdefault('history', []).append({'caught_by': meta.get('caught_by'), 'caught_with_failing_input': meta.get('caught_with_failing_input')})
     rc, o = sh(f'git -C /repo apply --check {patch} && git -C /repo apply {patch}')
     if rc != 0: print('apply failed', o); return
+    save_evidence()
     try:
         for c in checks:
             t0 = time.time()
@@ -30,7 +39,7 @@ def recheck():
                     except Exception: pass
             meta['checks'][c] = {'exit': rc, 'violations': vio, 'replays': replays, 'wall_s': round(time.time() - t0, 1)}
     finally:
-        sh('git -C /repo checkout -- .')
+        sh('git -C /repo checkout -- .'); restore_evidence()
     meta['caught_by'] = [c for c, v in meta['checks'].items() if v['exit'] != 0]
     meta['caught_with_failing_input'] = [c for c, v in meta['checks'].items() if any('no-failing-input-found' not in l for l in v['violations'])]
     json.dump(meta, open(os.path.join(out, 'meta.json'), 'w'), indent=1)
@@ -102,6 +111,7 @@ def main():
     if rc != 0:
         meta['apply_error'] = o[-500:]
     else:
+        save_evidence()
         try:
             for c in checks:
                 t0 = time.time()
@@ -117,7 +127,7 @@ def main():
                         except Exception: pass
                 meta['checks'][c] = {'exit': rc, 'violations': vio, 'replays': replays, 'wall_s': round(time.time() - t0, 1)}
         finally:
-            sh('git -C /repo checkout -- .')
+            sh('git -C /repo checkout -- .'); restore_evidence()
     meta['caught_by'] = [c for c, v in meta['checks'].items() if v['exit'] != 0]
     meta['caught_with_failing_input'] = [c for c, v in meta['checks'].items() if any('no-failing-input-found' not in l for l in v['violations'])]
     json.dump(meta, open(os.path.join(out, 'meta.json'), 'w'), indent=1)
